@@ -1062,6 +1062,14 @@ func (rl *Shell) shellBackwardKillWord() {
 	rl.cursor.ToFirstNonSpace(true)
 	bpos = rl.cursor.Pos()
 
+	// Only blanks behind point: there is no word to kill.
+	if bpos > startPos {
+		rl.cursor.Set(startPos)
+		rl.selection.Reset()
+
+		return
+	}
+
 	rl.Buffers.Write([]rune((*rl.line)[bpos:startPos])...)
 	rl.line.Cut(bpos, startPos)
 	rl.selection.Reset()
